@@ -1308,7 +1308,7 @@ def nan_policy_cases(ctx, drv, tier):
 
 HIST_KINDS = ["exact", "exact_fast_pred_var", "model_list", "model_list_fast_pred_var", "wrapper_exact", "wrapper_exact_fast_pred_var",
               "svgp_whitened", "svgp_unwhitened", "wrapper_svgp"]
-HIST_OPS = ["load_state_dict", "set_train_data", "train_step_eval", "load_state_dict_partial", "set_train_targets"]
+HIST_OPS = ["load_state_dict", "set_train_data", "train_step_eval", "load_state_dict_partial", "set_train_targets", "set_train_inputs"]
 
 
 def history_payload(rng, kind):
@@ -1322,7 +1322,7 @@ def history_payload(rng, kind):
         return {"s": rng.choice([0.2, 1.0, 5.0, 25.0]), "l": rng.choice([0.3, 1.0, 3.0]), "mean": 0.0}
     ops = [rng.choice(HIST_OPS) for _ in range(rng.choice([1, 2, 3]))]
     if not kind.startswith(("exact", "model_list", "wrapper_exact")):
-        ops = [o if o not in ("set_train_data", "set_train_targets") else "load_state_dict" for o in ops]
+        ops = [o if o not in ("set_train_data", "set_train_targets", "set_train_inputs") else "load_state_dict" for o in ops]
     p = {"kind": "history", "model": kind, "ops": ops, "d": d,
          "train_x": torch.randn(n, d, generator=g).tolist(), "train_y": torch.randn(n, generator=g).tolist(),
          "train_x2": torch.randn(n + 1, d, generator=g).tolist(), "train_y2": torch.randn(n + 1, generator=g).tolist(),
@@ -1496,6 +1496,14 @@ def run_history(ctx, drv, p, want_driver=True):
                 if cur_tx[i].shape[0] != ny.shape[0]:
                     ny = torch.tensor(p["train_y2"]).flip(0).clone() * 1.5 + 0.3
                 leaf["model"].set_train_data(targets=ny, strict=False)
+        elif op == "set_train_inputs":
+            # inputs only (targets omitted): same number of points, new locations
+            for i, leaf in enumerate(leaves):
+                nx = torch.tensor(p["train_x2"])[: cur_tx[i].shape[0]].clone() * 0.9 + 0.1 * k
+                if i == 1:
+                    nx = nx.flip(0).clone()
+                leaf["model"].set_train_data(inputs=nx, strict=False)
+                cur_tx[i] = nx
         elif op == "set_train_data":
             for i, leaf in enumerate(leaves):
                 nx, ny = torch.tensor(p["train_x2"]), torch.tensor(p["train_y2"])
@@ -2200,6 +2208,7 @@ def correspondence(ctx, want_driver=True):
     section("ard_derivative_gp_py", lambda: W3().deriv_gp_cases(ctx, drv, ctx.tier))
     section("variational_strategies_py", lambda: W3().vstrat_cases(ctx, drv, ctx.tier))
     section("ovc_fantasy_py", lambda: W3().ovc_cases(ctx, drv, ctx.tier))
+    section("set_train_data_py", lambda: W3().set_train_data_cases(ctx, drv, ctx.tier))
     section("dense_py", lambda: dense_cases(ctx, drv, ctx.tier))
     section("gram", lambda: gram_cases(ctx, drv, ctx.tier))
     drv.flush()
@@ -2289,6 +2298,8 @@ def replay(ctx, payload):
         return not W3().run_vstrat(ctx, None, case, want_driver=False)
     if kind == "ovc":
         return not W3().run_ovc(ctx, None, case, want_driver=False)
+    if kind == "set_train_data":
+        return not W3().run_set_train_data(ctx, None, case, want_driver=False)
     if kind == "variance":
         diag = [float(Fraction(x)) for x in case["diag"]]
         fails, _ = run_variance(ctx, None, diag, case.get("min_variance_double"), case["container"], want_driver=False)
